@@ -1,7 +1,9 @@
 package jgen
 
 import (
+	"context"
 	"encoding/hex"
+	"errors"
 	"fmt"
 	"sort"
 	"strings"
@@ -138,4 +140,47 @@ func (g *Gen) Payload(depth, unencPermille int) *Recipe {
 		}
 	}
 	return g.Value(depth, unencPermille)
+}
+
+// contexts handed to Process: 0 Background, 1 live (cancellable, not cancelled), 2 already cancelled, 3 deadline in the past,
+// 4 a custom Context type whose Err() is non-nil, 5 live with a far deadline
+const CtxKinds = 6
+
+type doneCtx struct{ ch chan struct{} }
+
+func (doneCtx) Deadline() (time.Time, bool)       { return time.Time{}, false }
+func (d doneCtx) Done() <-chan struct{}           { return d.ch }
+func (doneCtx) Err() error                        { return errors.New("custom context is done") }
+func (doneCtx) Value(key interface{}) interface{} { return nil }
+
+// MkContext returns the context of that kind, its release function and whether it is already done.
+func MkContext(kind int) (context.Context, func(), bool) {
+	switch kind {
+	case 1:
+		ctx, cancel := context.WithCancel(context.Background())
+		return ctx, cancel, false
+	case 2:
+		ctx, cancel := context.WithCancel(context.Background())
+		cancel()
+		return ctx, func() {}, true
+	case 3:
+		ctx, cancel := context.WithDeadline(context.Background(), time.Unix(1, 0))
+		return ctx, cancel, true
+	case 4:
+		ch := make(chan struct{})
+		close(ch)
+		return doneCtx{ch}, func() {}, true
+	case 5:
+		ctx, cancel := context.WithTimeout(context.Background(), time.Hour)
+		return ctx, cancel, false
+	}
+	return context.Background(), func() {}, false
+}
+
+// GenCtx draws a context kind: mostly Background, the done ones often enough.
+func GenCtx(r *hc.Rand) int {
+	if r.Chance(1, 2) {
+		return 0
+	}
+	return r.Intn(CtxKinds)
 }
